@@ -40,12 +40,11 @@ def child_env(scratch=None):
 def shard_environment(k, nshards):
     """
     Environment slices (DESIGN.md 2.3): cases are dealt to shards round-robin, so a shard is a slice of every case class.
-    The last shard runs with DEBUG logging (core.run_shard); the three before it run in an interpreter started with -bb,
-    with -O, and under a time zone with daylight saving.  Returns (interpreter options, extra environment, label).
+    The last shard runs with DEBUG logging (core.run_shard); two more run in an interpreter started with -O and under a
+    time zone with daylight saving.  (A -bb slice existed for a while and was withdrawn: DESIGN.md Appendix B.)
+    Returns (interpreter options, extra environment, label).
     """
     if nshards >= 8:
-        if k == nshards - 2:
-            return ['-bb'], {}, '-bb'
         if k == nshards - 3:
             return ['-O'], {}, '-O'
         if k == nshards - 4:
